@@ -1,0 +1,151 @@
+//go:build verif
+
+package pogreb
+
+// Verification-only exports (build tag "verif"). Nothing here is compiled into regular builds.
+
+// VerifSetThresholds sets the unexported segment size and compaction thresholds.
+func VerifSetThresholds(opts *Options, maxSegmentSize, compactionMinSegmentSize uint32, compactionMinFragmentation float32) {
+	opts.maxSegmentSize = maxSegmentSize
+	opts.compactionMinSegmentSize = compactionMinSegmentSize
+	opts.compactionMinFragmentation = compactionMinFragmentation
+}
+
+// VerifPinnedSeed, when non-nil, replaces every freshly generated hash seed.
+var VerifPinnedSeed *uint32
+
+// VerifYield, when non-nil, is called at the verification yield points.
+var VerifYield func(point string)
+
+func verifYield(point string) {
+	if f := VerifYield; f != nil {
+		f(point)
+	}
+}
+
+func verifSeed(seed uint32) uint32 {
+	if p := VerifPinnedSeed; p != nil {
+		return *p
+	}
+	return seed
+}
+
+// VerifHashSeed returns the hash seed of the DB.
+func (db *DB) VerifHashSeed() uint32 {
+	db.mu.RLock()
+	defer db.mu.RUnlock()
+	return db.hashSeed
+}
+
+// VerifSlot is an index slot.
+type VerifSlot struct {
+	Hash      uint32
+	SegmentID uint16
+	KeySize   uint16
+	ValueSize uint32
+	Offset    uint32
+}
+
+// VerifBucket is an index bucket.
+type VerifBucket struct {
+	Overflow bool
+	Offset   int64
+	Next     int64
+	Slots    []VerifSlot
+}
+
+// VerifIndex is a dump of the index.
+type VerifIndex struct {
+	Level      uint8
+	NumKeys    uint32
+	NumBuckets uint32
+	Split      uint32
+	Free       []int64
+	Chains     [][]VerifBucket
+}
+
+// VerifIndexDump walks the whole index.
+func (db *DB) VerifIndexDump() (VerifIndex, error) {
+	db.mu.RLock()
+	defer db.mu.RUnlock()
+	idx := db.index
+	d := VerifIndex{
+		Level:      idx.level,
+		NumKeys:    idx.numKeys,
+		NumBuckets: idx.numBuckets,
+		Split:      idx.splitBucketIdx,
+		Free:       append([]int64(nil), idx.freeBucketOffs...),
+	}
+	for i := uint32(0); i < idx.numBuckets; i++ {
+		var chain []VerifBucket
+		it := idx.newBucketIterator(i)
+		first := true
+		for {
+			b, err := it.next()
+			if err == ErrIterationDone {
+				break
+			}
+			if err != nil {
+				return d, err
+			}
+			vb := VerifBucket{Overflow: !first, Offset: b.offset, Next: b.next}
+			for j := 0; j < slotsPerBucket; j++ {
+				sl := b.slots[j]
+				vb.Slots = append(vb.Slots, VerifSlot{sl.hash, sl.segmentID, sl.keySize, sl.valueSize, sl.offset})
+			}
+			chain = append(chain, vb)
+			first = false
+			if len(chain) > 1<<20 {
+				break
+			}
+		}
+		d.Chains = append(d.Chains, chain)
+	}
+	return d, nil
+}
+
+// VerifSegment describes a datalog segment.
+type VerifSegment struct {
+	ID            uint16
+	SequenceID    uint64
+	Name          string
+	Size          int64
+	Current       bool
+	Full          bool
+	PutRecords    uint32
+	DeleteRecords uint32
+	DeletedKeys   uint32
+	DeletedBytes  uint32
+}
+
+// VerifSegments lists the datalog segments.
+func (db *DB) VerifSegments() []VerifSegment {
+	db.mu.RLock()
+	defer db.mu.RUnlock()
+	var res []VerifSegment
+	for _, seg := range db.datalog.segmentsBySequenceID() {
+		res = append(res, VerifSegment{
+			ID: seg.id, SequenceID: seg.sequenceID, Name: seg.name, Size: seg.size,
+			Current: seg == db.datalog.curSeg, Full: seg.meta.Full,
+			PutRecords: seg.meta.PutRecords, DeleteRecords: seg.meta.DeleteRecords,
+			DeletedKeys: seg.meta.DeletedKeys, DeletedBytes: seg.meta.DeletedBytes,
+		})
+	}
+	return res
+}
+
+// VerifCurrentSegment returns the name of the current segment and whether it is still part of the datalog.
+func (db *DB) VerifCurrentSegment() (string, bool) {
+	db.mu.RLock()
+	defer db.mu.RUnlock()
+	cur := db.datalog.curSeg
+	if cur == nil {
+		return "", false
+	}
+	return cur.name, db.datalog.segments[cur.id] == cur
+}
+
+// VerifHash returns the hash of the key under the DB's seed.
+func (db *DB) VerifHash(key []byte) uint32 {
+	return db.hash(key)
+}
